@@ -726,15 +726,17 @@ def run_impl(sc):
     kind, dims, cap, gridclass, torus = parse_header(sc.lines[0])
     impl = Impl(kind, dims, cap, gridclass if gridclass != "-" else "moore", torus)
     obs = ["ok"]
-    for line in sc.lines[1:]:
-        w = line.split()
-        if w[0] == "select":
-            # a saved mask that this very call overwrites must be evaluated with its old content
-            impl.masks_before = dict(impl.masks)
-        obs.append(impl.line(w))
-        impl.tags.add("op:" + w[0])
-        if obs[-1].startswith("err"):
-            impl.tags.add("reject:" + w[0] + ":" + obs[-1][4:].replace(" ", "-"))
+    try:
+        for line in sc.lines[1:]:
+            w = line.split()
+            if w[0] == "select":
+                # a saved mask that this very call overwrites must be evaluated with its old content
+                impl.masks_before = dict(impl.masks)
+            obs.append(impl.line(w))
+    finally:
+        # mesa keeps every Model that ever created an agent alive in the class-level dict Agent._ids;
+        # drop our entry so that long campaigns do not accumulate gigabytes
+        getattr(impl.M["Agent"], "_ids", {}).pop(impl.model, None)
     sc.meta["oracle"] = impl.bad
     sc.meta["oracle_for"] = sc.key()
     sc.meta["tainted"] = impl.tainted
@@ -835,7 +837,9 @@ class Gen:
         else:
             free = [n for n in pool if n not in self.attached_names()]
             name = R.choice(free or pool)
-        dt = R.choice(DTYPES)
+        # the grid itself writes raw True/False into whatever layer is called "empty": with the 1/4 encoding
+        # of float layers that would not be the model's 1/0, so a user-made "empty" layer is bool or int
+        dt = R.choice(DTYPES if name != "empty" else DTYPES[:2])
         d = self.val(dt)
         if R.random() < (0.3 if self.rejecting else 0.25):
             # free-standing layer, possibly mis-shaped, attached later
